@@ -44,6 +44,10 @@ pub trait OrdColl: Sized {
     fn stored_keys(&self) -> Option<Vec<i32>> {
         None
     }
+    /// (trees) the collection put into a given arena state through the `verif_load` hook
+    fn from_snap(_s: &Snap) -> Option<Self> {
+        None
+    }
 }
 
 fn snap_head(o: &mut String, root: u32) {
@@ -173,6 +177,15 @@ impl<P: Payload> OrdColl for MapTree<OKey, P> {
         let s = self.verif_snapshot();
         let nodes: Vec<CNode> = s.nodes.iter().map(|n| CNode { l: n.left, r: n.right, red: n.red, k: n.key.0, v: 0 }).collect();
         Some(keys_of(&nodes, s.root))
+    }
+    fn from_snap(s: &Snap) -> Option<Self> {
+        use i_tree::map::verif::{VerifNode, VerifSnapshot};
+        let nodes = s
+            .nd
+            .iter()
+            .map(|n| VerifNode { parent: u32r(n[0]), left: u32r(n[1]), right: u32r(n[2]), red: n[3] != 0, key: OKey(n[4] as i32), val: P::from_i(n[5] as i32) })
+            .collect();
+        Some(MapTree::verif_load(VerifSnapshot { root: u32r(s.root), nodes, unused: s.free.clone(), unused_capacity: s.ucap }))
     }
 }
 
@@ -306,6 +319,15 @@ impl<P: Payload> OrdColl for SetTree<OKey, PV<P>> {
         let nodes: Vec<CNode> = s.nodes.iter().map(|n| CNode { l: n.left, r: n.right, red: n.red, k: n.value.key.0, v: 0 }).collect();
         Some(keys_of(&nodes, s.root))
     }
+    fn from_snap(s: &Snap) -> Option<Self> {
+        use i_tree::set::verif::{VerifNode, VerifSnapshot};
+        let nodes = s
+            .nd
+            .iter()
+            .map(|n| VerifNode { parent: u32r(n[0]), left: u32r(n[1]), right: u32r(n[2]), red: n[3] != 0, value: PV { key: OKey(n[4] as i32), payload: P::from_i(n[5] as i32) } })
+            .collect();
+        Some(SetTree::verif_load(VerifSnapshot { root: u32r(s.root), nodes, unused: s.free.clone(), unused_capacity: s.ucap }))
+    }
 }
 
 // ---- SetTree over plain integers (the library's own `impl KeyValue<i32> for i32`) -------------
@@ -381,6 +403,12 @@ impl OrdColl for SetTree<i32, i32> {
         let s = self.verif_snapshot();
         let nodes: Vec<CNode> = s.nodes.iter().map(|n| CNode { l: n.left, r: n.right, red: n.red, k: n.value, v: 0 }).collect();
         Some(keys_of(&nodes, s.root))
+    }
+    fn from_snap(s: &Snap) -> Option<Self> {
+        use i_tree::set::verif::{VerifNode, VerifSnapshot};
+        // bare integers: the value is the key
+        let nodes = s.nd.iter().map(|n| VerifNode { parent: u32r(n[0]), left: u32r(n[1]), right: u32r(n[2]), red: n[3] != 0, value: n[4] as i32 }).collect();
+        Some(SetTree::verif_load(VerifSnapshot { root: u32r(s.root), nodes, unused: s.free.clone(), unused_capacity: s.ucap }))
     }
 }
 
@@ -715,6 +743,37 @@ impl<'a, C: OrdColl> OrdSession<'a, C> {
             ptxt.join(";"),
             snap
         ));
+    }
+
+    /// start of a one-step segment: the collection is put into the given arena state through the
+    /// `verif_load` hook (a start state of IndOrd.tla, or the `load` event of a replay file)
+    pub fn load_snap(&mut self, snap: &Snap, cap: usize) -> bool {
+        assert!(C::HAS_SNAP);
+        self.cap = cap;
+        self.mine.clear();
+        self.dead = false;
+        self.tr.pre("\"op\":\"load-snap\",\"out\":\"aborted\"");
+        let o = observe(0, || C::from_snap(snap));
+        match o.out {
+            Outcome::Ok(Some(c)) => {
+                self.c = c;
+                self.mine = self.c.stored_keys().unwrap_or_default().into_iter().collect();
+            }
+            _ => {
+                self.dead = true;
+                return false;
+            }
+        }
+        let snapj = self.c.snap_json();
+        self.tr.line(&format!(
+            "\"ev\":\"load\",\"coll\":\"{}\",\"kind\":\"{}\",\"set\":{},\"cap\":{},\"path\":\"\",\"ind\":1,{}",
+            C::name(),
+            C::KIND,
+            C::IS_SET as u8,
+            cap,
+            snapj
+        ));
+        true
     }
 
     /// a logged path step (handles named by key are acquired by a logged query first)
@@ -1109,6 +1168,55 @@ pub fn run_faults<C: OrdColl>(tr: &mut Trace, paths: &[(usize, Vec<POp>)], keys:
     }
 }
 
+/// One step of every kind from every start state TLC printed for IndOrd.tla (every valid red-black
+/// tree up to a size, in several arena situations): the real collection is put into the state through
+/// the load hook, the call is made, TLC validates the result.  `handles`: before an insertion a handle
+/// is taken for every stored entry, so that the insert is judged for handle stability as well.
+pub fn run_ind<C: OrdColl>(tr: &mut Trace, states: &[Snap], handles: bool) {
+    let mut s: OrdSession<C> = OrdSession::new(tr, 1, 0, 1);
+    for snap in states {
+        if s.tr.full() {
+            break;
+        }
+        let cap = 0usize;
+        if !s.load_snap(snap, cap) {
+            continue;
+        }
+        let stored: Vec<i32> = s.mine.iter().cloned().collect();
+        let top = stored.last().cloned().unwrap_or(0) + 1;
+        s.keys = top;
+        s.queries();
+        let absent: Vec<i32> = (1..=top).filter(|k| !s.mine.contains(k)).collect();
+        for k in &absent {
+            s.load_snap(snap, cap);
+            if handles {
+                for kk in &stored {
+                    s.apply(&OOp::Fil { p: *kk }, 0);
+                }
+            }
+            s.apply(&OOp::Ins { k: *k, v: k * 1000 + 77 }, 0);
+        }
+        for k in stored.iter().cloned().chain([0, top]) {
+            s.load_snap(snap, cap);
+            s.apply(&OOp::Del { k }, 0);
+        }
+        for k in &stored {
+            s.load_snap(snap, cap);
+            if let Some(h) = s.handle_of(*k) {
+                s.apply(&OOp::Write { h, v: k * 1000 + 88 }, 0);
+                s.apply(&OOp::Read { h }, 0);
+            }
+            s.load_snap(snap, cap);
+            if let Some(h) = s.handle_of(*k) {
+                s.apply(&OOp::DelH { h }, 0);
+            }
+        }
+        s.load_snap(snap, cap);
+        s.apply(&OOp::Clear, 0);
+        s.apply(&OOp::Empty, 0);
+    }
+}
+
 pub struct RandCfg {
     pub seed: u64,
     pub keys: i32,
@@ -1260,7 +1368,11 @@ pub fn run_replay<C: OrdColl>(tr: &mut Trace, text: &str, keys: i32) {
             Some("reset") => s.reset(fnum(line, "cap").unwrap_or(0) as usize),
             Some("load") => {
                 let path: Vec<POp> = fstr(line, "path").unwrap_or_default().split(';').map(|x| x.trim()).filter(|x| !x.is_empty()).map(POp::parse).collect();
-                if C::HAS_SNAP {
+                if C::HAS_SNAP && fnum(line, "ind") == Some(1) {
+                    if let Some(snap) = parse_snap(line) {
+                        s.load_snap(&snap, fnum(line, "cap").unwrap_or(0) as usize);
+                    }
+                } else if C::HAS_SNAP {
                     s.load(&path, fnum(line, "cap").unwrap_or(0) as usize);
                 }
             }
